@@ -10,6 +10,7 @@
 -/
 import Proofs.Dispatch
 import Proofs.DispatchHttp
+import Proofs.DispatchBytes
 import SpyneModel.Generated.Facts11
 namespace SpyneModel.Props.C11
 open SpyneModel SpyneModel.Dispatch SpyneModel.Dispatch.Sample SpyneModel.Generated
@@ -133,6 +134,44 @@ theorem qualified_key_not_found (tns ns l : Text) (ms : List Method) (r : Routes
     serve facts11 r tns (.key (qname ns l)) = .notFound :=
   (reached_iff_registered tns ms r hb _ (qname ns l) rfl).mpr
     (fun m hmem he => hm m hmem (by rw [he]; rfl))
+
+/-! ### names that arrive as bytes (msgpack `bin` name field / key) -/
+
+/-- the byte-level naming function is strict UTF-8: it inverts `str.encode`, and whatever it accepts is
+    *the* canonical encoding of the text it yields — so it is injective on what it accepts (no overlong
+    form, surrogate, stray or truncated sequence is mapped to a "closest" name) -/
+theorem bin_naming_canonical (bs : List Nat) (s : Text) :
+    decodeName (encodeName s) = some s ∧ (decodeName bs = some s → bs = encodeName s) :=
+  ⟨decodeName_encodeName s, decodeName_canonical bs s⟩
+
+/-- a byte string that is not exactly the UTF-8 encoding of a registered public name runs nothing:
+    it ends in the not-found fault or (undecodable) in another client fault. `mk` is `.rpcName` or `.key`. -/
+theorem bin_name_unregistered (tns : Text) (ms : List Method) (r : Routes) (hb : build facts11 tns ms = .ok r)
+    (mk : Text → Request) (hmk : ∀ n, requestKey facts11 tns (mk n) = qname tns n)
+    (bs : List Nat) (hne : ∀ m ∈ ms, bs ≠ encodeName m.name) :
+    serveWire facts11 r tns mk (.bin bs) = .notFound ∨ serveWire facts11 r tns mk (.bin bs) = .clientFault := by
+  cases hs : serveWire facts11 r tns mk (.bin bs) with
+  | ran calls =>
+    exfalso
+    obtain ⟨m, hm, e⟩ := serveWire_ran_exact facts11 (by decide) (by decide) (by decide) (by decide)
+      tns ms r hb mk hmk bs calls hs
+    exact hne m hm e
+  | notFound => exact .inl rfl
+  | clientFault => exact .inr rfl
+  | stuck =>
+    exfalso
+    rw [serveWire_bin facts11 (by decide)] at hs
+    cases hd : decodeName bs with
+    | none => simp [hd] at hs
+    | some n => simp only [hd] at hs; rw [serve_eq facts11 (by decide)] at hs; split at hs <;> cases hs
+
+/-- the UTF-8 encoding of a registered name, sent as `bin`, runs exactly what the text form runs -/
+theorem bin_name_registered (tns : Text) (ms : List Method) (r : Routes) (hb : build facts11 tns ms = .ok r)
+    (mk : Text → Request) (hmk : ∀ n, requestKey facts11 tns (mk n) = qname tns n)
+    (m : Method) (hm : m ∈ ms) (ha : m.aux = false) :
+    serveWire facts11 r tns mk (.bin (encodeName m.name)) =
+      .ran (m.fid :: (auxs tns ms (routeKey tns m)).map (·.fid)) :=
+  serveWire_registered facts11 (by decide) (by decide) (by decide) (by decide) tns ms r hb mk hmk m hm ha
 
 /-! ### the listing order does not matter -/
 
@@ -281,5 +320,19 @@ example : choosePattern [⟨none, "/a/<x>".toList, "p".toList, 1⟩, ⟨none, "/
     "GET".toList "/a/b".toList = some ⟨none, "/a/b".toList, "q".toList, 2⟩ := by decide
 example : addrMatches (compileAddr "/a/<x>/c".toList) "/a/zz/c".toList = true ∧
           addrMatches (compileAddr "/a/<x>/c".toList) "/a/z/z/c".toList = false := by decide
+
+/-- undecodable / non-canonical byte names: invalid byte, stray continuation, overlong 2- and 3-byte forms,
+    CESU surrogate, above U+10FFFF, truncated sequence -/
+example : decodeName [0x65, 0x63, 0x68, 0x6F, 0xFF] = none ∧ decodeName [0x80, 0x65] = none ∧
+    decodeName [0xC1, 0xA5, 0x63] = none ∧ decodeName [0xE0, 0x81, 0xA5] = none ∧
+    decodeName [0xED, 0xA0, 0x80] = none ∧ decodeName [0xF4, 0x90, 0x80, 0x80] = none ∧
+    decodeName [0x65, 0xC3] = none := by decide
+example : decodeName [0x65, 0xC3, 0xA9, 0xE2, 0x82, 0xAC, 0xF0, 0x9F, 0x98, 0x80] = some "eé€😀".toList := by decide
+example : encodeName "eé€😀".toList = [0x65, 0xC3, 0xA9, 0xE2, 0x82, 0xAC, 0xF0, 0x9F, 0x98, 0x80] := by decide
+example : (match build facts11 "tns".toList [mX, mA, mB] with
+    | .ok r => (serveWire facts11 r "tns".toList .rpcName (.bin [0x66, 0x6F, 0x6F]),
+                serveWire facts11 r "tns".toList .rpcName (.bin [0x66, 0x6F, 0x6F, 0xFF]),
+                serveWire facts11 r "tns".toList .key (.bin [0x66, 0x6F, 0x6F, 0x00]))
+    | .error _ => (.stuck, .stuck, .stuck)) = (.ran [1, 3], .clientFault, .notFound) := by decide
 
 end SpyneModel.Props.C11
